@@ -207,7 +207,11 @@ def _check_specific_rule_ignore(line: str, rule_id: str) -> bool:
 
 def _check_specific_rule_in_line(code: str, rule_id: str) -> bool:
     """Check if line's ignore directive matches specific rule."""
-    bracket_match = re.search(r"ignore\[([^\]]+)\]", code, re.IGNORECASE)
+    # The rule list is the one of the thailint directive, not of another tool's comment
+    # on the same line (# type: ignore[arg-type]  # thailint: ignore[magic-numbers])
+    bracket_match = re.search(
+        r"(?:thailint|design-lint):\s*ignore\[([^\]]+)\]", code, re.IGNORECASE
+    ) or re.search(r"ignore\[([^\]]+)\]", code, re.IGNORECASE)
     if bracket_match:
         return check_bracket_rules(bracket_match.group(1), rule_id)
     space_match = re.search(r"ignore\s+([^\s#]+(?:\s+[^\s#]+)*)", code, re.IGNORECASE)
